@@ -105,7 +105,7 @@ CLAIMS = {
         'design_ref': 'DESIGN.md section 5, C12',
     },
     'C07': {
-        'text': "Lean theorems: C07.timedelta (for EVERY timedelta — any sign, zero, min, max, -1 microsecond — the days (written as years * 365 + rest), hours, minutes, seconds, milliseconds, microseconds the printer shows, fed to the constructor and negated when the printer prefixes '-', give back exactly the original duration: integer arithmetic), timedelta_ranges, dropWhile_zero_restores / time_fields (dropping the leading run of zero time fields and defaulting the missing ones restores hour, minute, second, microsecond), datetime_date_only, chainmap_shortcut (the empty-call form only for no maps / one empty map), deque_maxlen. The printers of pretty_stdlib.py are modelled as functions from the object's observable fields to a call shape / identifier / timedelta document (PP/Model/Std.lean) and tied to /repo on 179 instances incl. boundary values (leading-zero fields, fold=1, fixed-offset / named / pytz zones incl. localized DST zones, empty and bounded deques, ChainMap shapes, Counter, partial, exceptions, pure paths, enums, namedtuples, SimpleNamespace, UUID, mappingproxy, defaultdict factories) alone and in nesting contexts x layouts incl. very wide ones; oracle: no repr-fallback warning, eval with the modules in scope reconstructs an equal object of the same type (maxlen, default_factory, func/args/keywords, fold, tzname compared too). Totality of the built-in printers is exercised by the C01 value section. F9, F18 repaired.",
+        'text': "Lean theorems: C07.timedelta (for EVERY timedelta — any sign, zero, min, max, -1 microsecond — the days (written as years * 365 + rest), hours, minutes, seconds, milliseconds, microseconds the printer shows, fed to the constructor and negated when the printer prefixes '-', give back exactly the original duration: integer arithmetic), timedelta_ranges, dropWhile_zero_restores / time_fields (dropping the leading run of zero time fields and defaulting the missing ones restores hour, minute, second, microsecond), datetime_date_only, chainmap_shortcut (the empty-call form only for no maps / one empty map), deque_maxlen. C07.printer_inventory: the list of printers the core package registers, regenerated from the source on every run, equals the list the models account for (one is recorded as unreachable on CPython 3.12: the printer registered for _ast.AST); the evidence lists which of them the corpus invoked. The printers of pretty_stdlib.py are modelled as functions from the object's observable fields to a call shape / identifier / timedelta document (PP/Model/Std.lean) and tied to /repo on 179 instances incl. boundary values (leading-zero fields, fold=1, fixed-offset / named / pytz zones incl. localized DST zones, empty and bounded deques, ChainMap shapes, Counter, partial, exceptions, pure paths, enums, namedtuples, SimpleNamespace, UUID, mappingproxy, defaultdict factories) alone and in nesting contexts x layouts incl. very wide ones; oracle: no repr-fallback warning, eval with the modules in scope reconstructs an equal object of the same type (maxlen, default_factory, func/args/keywords, fold, tzname compared too). Totality of the built-in printers is exercised by the C01 value section. F9, F18 repaired.",
         'note': "the stdlib constructors' semantics (normalisation of timedelta, defaults of datetime/time) are modelled, not verified; the per-type faithfulness theorems cover timedelta, time/datetime fields, ChainMap and deque; the other printers are plain call shapes checked by correspondence + eval",
         'technique': 'Lean 4 proof (integer arithmetic, list lemmas) + differential correspondence + eval oracle',
         'design_ref': 'DESIGN.md section 5, C07',
